@@ -83,6 +83,8 @@ class BlockRec(e7.Recogniser):
             raise facts.MissingAnchor("scan_block_scalar: the chomping variable was not identified")
         self.chomps = set(ch)
         self.chomp = ch[0]
+        from engine import e8 as _e8
+        self._sym = _e8.SymRec(f)           # symbolic values along the path: resolves `?` / match on a value whose variant is known
         self.variants = [v["name"] for v in F.adt(CHOMP)["variants"]]
         self.vidx = {v["discr"]: v["name"] for v in F.adt(CHOMP)["variants"]}
         self.str_locals = {i for i, l in enumerate(f.locals) if l["ty"] == "std::string::String"}
@@ -168,6 +170,19 @@ class BlockRec(e7.Recogniser):
             edges.append((Cons(neg=listed), t["otherwise"]))
             return (("chomp",), edges)
         if t["dty"] != "bool" or t["vals"] != [0]:
+            from engine import e8 as _e8
+            sv = _e8.operand_value(f, t["discr"], st)
+            if sv[0] == "const" and isinstance(sv[1], int) and t["dty"] in ("isize", "usize", "u8", "i8", "u32", "i32"):
+                # the variant tested is known on this path (an Option / ControlFlow built a few statements earlier)
+                for v, tg in zip(t["vals"], t["targets"]):
+                    if v == sv[1]:
+                        return (("known", bi), [(TRUE, tg)])
+                return (("known", bi), [(TRUE, t["otherwise"])])
+            if t["dty"] == "char" and e[0] == "call" and e[1] and e[1].endswith(("Input::peek", "Input::look_ch")):
+                # a match on the character at the cursor
+                edges = [(Cons([v]), tg) for v, tg in zip(t["vals"], t["targets"])]
+                edges.append((Cons(neg=t["vals"]), t["otherwise"]))
+                return (("cur", st.get("epoch", 0)), edges)
             # any other multi-way test (the ControlFlow of a `?`, an Option ...) only forks the path
             edges = [(Cons([v]), tg) for v, tg in zip(t["vals"], t["targets"])]
             edges.append((Cons(neg=t["vals"]), t["otherwise"]))
@@ -212,6 +227,7 @@ class BlockRec(e7.Recogniser):
     # ---- effects
     def stmt(self, s, st):
         f = self.f
+        self._sym.stmt(s, st)
         if s["k"] != "assign" or s["lhs"]["p"]:
             return None
         l = s["lhs"]["l"]
@@ -244,6 +260,8 @@ class BlockRec(e7.Recogniser):
 
     def call(self, bi, t, ck, st):
         f = self.f
+        from engine import e8 as _e8
+        _e8.SymRec.call(self._sym, bi, t, ck, st)
         for k, n in CONSUME.items():
             if ck.endswith(k):
                 st["epoch"] = st.get("epoch", 0) + 1
